@@ -109,7 +109,10 @@ def check_modes(ctx):
            if isinstance(n, ast.Call) and U(n.func) == 'self._triangulated' and len(n.args) == 1]
     if not tri:
         raise AnalysisError('_make_tree: triangulation call not found')
-    used = tri[0].args[0]
+    used_raw = tri[0].args[0]
+    used = used_raw
+    while isinstance(used, ast.Call) and U(used.func) in ('list', 'tuple') and len(used.args) == 1:
+        used = used.args[0]           # the order materialised as a list: the same sequence
     leaves = []
 
     def walk(e, path):
@@ -142,8 +145,12 @@ def check_modes(ctx):
            'an integer selects the cheapest among the greedy order and that many randomised orders', construct='integer order mode')
     ctx.ob('order-modes', fi, fi.node, ok_given, 'any other value is used as the elimination order as given', construct='given order')
     store = [(v, s_) for t_, v, s_ in be.stores if t_ == 'self.elimination_order']
-    ctx.ob('order-modes', fi, store[0][1] if store else fi.node, bool(store) and all(T(v) == T(used) for v, _ in store),
-           'the order actually used is recorded as elimination_order (synthetic data generation walks it backwards)',
+    def same_seq(v):
+        # the very same value (one evaluation): a given order may be a one-shot iterable, `list(order)` next to a second use of
+        # `order` itself would leave the second consumer with nothing
+        return T(v) == T(used_raw)
+    ctx.ob('order-modes', fi, store[0][1] if store else fi.node, bool(store) and all(same_seq(v) for v, _ in store),
+           'the order actually used is recorded as elimination_order (synthetic data generation walks it backwards) - the same value, evaluated once: a given order may be a one-shot iterable',
            construct='recorded elimination order')
 
 
